@@ -21,6 +21,7 @@ import (
 
 	"github.com/ory/fosite"
 	"github.com/ory/fosite/compose"
+	"github.com/ory/fosite/handler/oauth2"
 	"github.com/ory/fosite/handler/openid"
 	"github.com/ory/fosite/storage"
 	"github.com/ory/fosite/token/jwt"
@@ -207,6 +208,7 @@ const (
 	compDevice
 	compDeviceOIDC
 	compAll
+	compJWT // the base composition with JWT access tokens (oauth2.DefaultJWTStrategy); sessions are JWT sessions
 )
 
 type W struct {
@@ -257,6 +259,10 @@ func newW(comp int, sec Secrets) *W {
 		compose.OAuth2RefreshTokenGrantFactory,
 		compose.OAuth2ResourceOwnerPasswordCredentialsFactory,
 	}
+	jwtSessions = comp == compJWT
+	if comp == compJWT {
+		strat.CoreStrategy = &oauth2.DefaultJWTStrategy{Signer: world.NewModelSigner(), HMACSHAStrategy: compose.NewOAuth2HMACStrategy(cfg), Config: cfg}
+	}
 	switch comp {
 	case compPAR:
 		fs = append(fs, compose.PushedAuthorizeHandlerFactory)
@@ -290,7 +296,17 @@ func get(form url.Values) *http.Request {
 	return &http.Request{Method: "GET", Header: http.Header{}, Form: form, PostForm: url.Values{}}
 }
 
-func session() *openid.DefaultSession {
+// jwtSessions: the composition under test needs oauth2.JWTSession (set by newW).
+var jwtSessions bool
+
+func session() fosite.Session {
+	if jwtSessions {
+		return &oauth2.JWTSession{
+			JWTClaims: &jwt.JWTClaims{Subject: "peter", Extra: map[string]interface{}{}},
+			JWTHeader: &jwt.Headers{Extra: map[string]interface{}{}},
+			Subject:   "peter", Username: "peter",
+		}
+	}
 	s := openid.NewDefaultSession()
 	s.Subject = "peter"
 	s.Username = "peter"
@@ -427,7 +443,7 @@ func s256(verifier string) string {
 // ---- flows
 
 var flowNames = []string{"code-pkce", "password", "client_credentials", "implicit", "refresh-reuse", "par", "oidc-explicit", "oidc-hybrid", "device", "device-oidc",
-	"all-enabled-code", "all-enabled-par-oidc"}
+	"jwt-access", "all-enabled-code", "all-enabled-par-oidc"}
 
 const (
 	flowCodePKCE = iota
@@ -440,12 +456,13 @@ const (
 	flowOIDCHybrid
 	flowDevice
 	flowDeviceOIDC
+	flowJWTAccess
 	flowAllCode
 	flowAllPAROIDC
 	flowCount
 )
 
-func quickFlows() int { return flowDeviceOIDC + 1 }
+func quickFlows() int { return flowJWTAccess + 1 }
 
 func (w *W) codeFlow(scope string, pkce bool, step string) fosite.AccessResponder {
 	f := authForm("code", scope)
@@ -578,6 +595,17 @@ func (w *W) run(flow int) {
 		}
 		_, err = w.refresh(refreshOf(r), "device refresh")
 		w.ok(err, "device refresh")
+	case flowJWTAccess:
+		// JWT access tokens: the access-token lookups of introspection and revocation are keyed by the JWT's
+		// signature; an opaque refresh token that reaches those lookups first (no hint / wrong hint) must not
+		// be handed to storage as it is
+		r := w.codeFlow("offline photos", false, "code")
+		w.expect(w.introspect(r.GetAccessToken(), fosite.AccessToken), "JWT access token is active")
+		w.expect(w.introspect(refreshOf(r), ""), "refresh token is active (no hint: the access-token lookup runs first)")
+		w.expect(w.introspect(refreshOf(r), fosite.AccessToken), "refresh token is active (wrong hint)")
+		r2, err := w.refresh(refreshOf(r), "refresh")
+		w.ok(err, "refresh")
+		w.revoke(refreshOf(r2), "access_token", "revoke refresh token with the wrong hint")
 	case flowAllCode:
 		r := w.codeFlow("offline photos", true, "code")
 		_, err := w.refresh(refreshOf(r), "refresh")
@@ -603,6 +631,8 @@ func compOf(flow int) int {
 		return compDeviceOIDC
 	case flowAllCode, flowAllPAROIDC:
 		return compAll
+	case flowJWTAccess:
+		return compJWT
 	}
 	return compBase
 }
